@@ -309,6 +309,9 @@ def c07_units(tier, seed):
     for Y in ys:
         for mo in range(-13, 14):
             us.append(dict(id=f"C07b[Y={Y},mo={mo}]", harness="calendar.VH_C07_NewLunar", params={"Y": Y, "MO": mo}))
+    # closure under stepping: month / year stepping from every valid civil date lands on a valid date and never panics
+    # (same unit as C04h; day and hour stepping are C04c/g, lunar stepping C01c)
+    us.append(dict(id="C07c", harness="calendar.VH_C04h_NextMonthYear", params={"K": 100000}))
     return us
 
 
@@ -549,9 +552,14 @@ def c10_units(tier, seed):
             if not q and Y == 2024 and m in (2, 6, 12):
                 us.append(dict(id=f"C10a[Y={Y},m={m},sect=1,base={Y-3},win=0]", harness="calendar.VH_C10_Reverse",
                                params={"Y": Y, "SECT": 1, "BASE": Y - 3, "WIN": 0}, concrete={"v_m": m}))
+    # C10b: the convenience variants (default convention 2, default base year 1900) equal the explicit call; hour case-split
+    rnd = random.Random(seed + 10)
+    days = [(2024, 2, 4), (2024, 5, 17), (2024, 12, 6), (1984, 2, 4)] if q else [(Y, m, rnd.randint(1, 28)) for Y in (1901, 1950, 1984, 2000, 2024) for m in range(1, 13)]
+    for (Y, m, d) in days:
+        us.append(dict(id=f"C10b[{Y}-{m:02d}-{d:02d}]", harness="calendar.VH_C10_DefaultRoute", params={"Y": Y, "M": m, "D": d}))
     return us
 
 
 PROPS["C10"] = dict(units=c10_units, bounds_text="every second of the three days around the Jie (in quick, under the late-rat convention: of the Jie day itself) of each month of the listed years (quick: 2024; thorough: 2020, 2024), base year = year-3 (thorough also the default 1900); quick: early-rat convention for all 12 months, the late-rat convention for February, and both conventions for the (year, month) nearest 2024 whose Jie instant falls at 23h (from the feature scan); thorough: both conventions for every month; thorough adds the remaining days of February, June and December 2024 under sect 1; candidate-year loop unwound concretely (the clock's current year is read from the host)",
-                    outside="years not listed; the days away from the Jie in quick; time.Now() beyond the host clock's year",
+                    outside="years not listed; the days away from the Jie in quick; time.Now() beyond the host clock's year; the default variants (no sect / no base year) are compared with the explicit call on listed days only (hour case-split, minute and second symbolic)",
                     unit_timeout_ms={"quick": 1500000, "thorough": 3600000})
